@@ -120,7 +120,7 @@ def reporter_storage(chk, F, rule, cfg):
         for e in ext:
             own_src = lambda x: field_path(x) == (('param', 0, 3), ['mismatches'])  # noqa: E731
             names = L.pipeline_calls(e.data[2][1], own_src)
-            ok = field_path(e.data[2][0])[1][-1:] == ['mismatches'] and names is not None and all(re.search(r'(IntoIterator>?::into_iter|Iterator>?::map)$', x) for x in names)
+            ok = field_path(e.data[2][0])[1][-1:] == ['mismatches'] and names is not None and all(re.search(r'(IntoIterator( for [^>]*)?>?::into_iter|Iterator>?::map)$', x) for x in names)
             okc = False
             for x in symex.subvalues(e.data[2][1]):
                 if is_call(x, r'Iterator>?::map$'):
@@ -141,7 +141,7 @@ def reporter_storage(chk, F, rule, cfg):
         for e in p.calls(r'Iterator>?::next$'):
             # the traversal is the reporter's own list, front to back, without an adapter in between
             ok = bool(re.search(r'vec::IntoIter<.*> as core::iter::Iterator>::next$', e.data[1])) and \
-                mentions(e.data[2][0], lambda x: is_call(x, r'IntoIterator>?::into_iter$') and field_path(x[2][0]) == (('param', 0, 3), ['mismatches']))
+                mentions(e.data[2][0], lambda x: is_call(x, r'IntoIterator( for [^>]*)?>?::into_iter$') and field_path(x[2][0]) == (('param', 0, 3), ['mismatches']))
             chk.ob(rule, 'the collector walks the reporter\'s own list directly (no skipping/reordering adapter)', ok, config=cfg, fn=cf, site='collect-iter', what='collect_from_reporter iterates %s' % e.data[1][:80])
         for e in p.calls(r'Vec::push$'):
             el = strip(e.data[2][1])
